@@ -49,7 +49,7 @@ def case_strategy():
             "scripts": idx,
             "sheets": idx,
             "all_files": st.booleans(),
-            "source": st.sampled_from(["dir", "dir", "pkg", "pkg", "url", "url/", "none", "libtest"]),
+            "source": st.sampled_from(["dir", "dir", "pkg", "pkg", "url", "url/", "none", "libtest", "reldir"]),
             "name": name,
             "version": version,
             "libdir": st.sampled_from([None, "lib", "lib", "x/y z", "a/b/c", ""]),
@@ -104,9 +104,11 @@ def body(case, note):
     tmp = os.path.realpath(tempfile.mkdtemp(prefix="hv-c12-"))
     added_path = None
     pkgname = None
+    cwd0 = os.getcwd()
     try:
         added_path, pkgname = _run(case, note, tmp)
     finally:
+        os.chdir(cwd0)
         if added_path and added_path in sys.path:
             sys.path.remove(added_path)
         if pkgname:
@@ -125,6 +127,12 @@ def _run(case, note, tmp):
     if src_kind == "dir":
         srcroot = os.path.join(tmp, "src dir")
         source = {"subdir": srcroot}
+    elif src_kind == "reldir":
+        # a directory given relative to the current working directory (a project's own assets)
+        os.makedirs(os.path.join(tmp, "project one"))
+        os.chdir(os.path.join(tmp, "project one"))
+        srcroot = os.path.join(tmp, "project one", "assets", "w dir")
+        source = {"subdir": os.path.join("assets", "w dir")}
     elif src_kind == "pkg":
         _PKG_COUNTER[0] += 1
         pkgname = "hv_c12_pkg_%d_%d" % (os.getpid(), _PKG_COUNTER[0])
@@ -201,6 +209,13 @@ def _run(case, note, tmp):
     os.makedirs(bystander, exist_ok=True)
     with open(os.path.join(bystander, "keep.txt"), "w") as f:
         f.write("keep")
+    # directories of *other* dependencies whose names merely start with / resemble this one's
+    others = [os.path.join(destdir, case["name"] + sfx) for sfx in ("-extras-1.2.0", "-extras", "x-1.0", ".bak", "-ui-" + case["version"])]
+    others = [o for o in others if os.path.realpath(o) != os.path.realpath(target)]
+    for o in others:
+        os.makedirs(o, exist_ok=True)
+        with open(os.path.join(o, "keep.txt"), "w") as f:
+            f.write("keep")
 
     # ---- fault law
     listed = list(dict.fromkeys(scripts + sheets))
@@ -264,6 +279,8 @@ def _run(case, note, tmp):
             gotf = sorted(p for p, k, _ in tsnap if k == "f")
             check(gotf == expf, "target directory does not hold exactly the listed files", expf, gotf)
         check(snapshot_dir(bystander) == [("keep.txt", "f", b"keep")], "an unrelated directory was modified")
+        for o in others:
+            check(snapshot_dir(o) == [("keep.txt", "f", b"keep")], "the directory of another dependency (similar name) was modified or removed", os.path.basename(o))
     else:
         after = snapshot_dir(destdir)
         # only the html file itself may be new (when libdir is empty/None it lives in destdir)
@@ -290,10 +307,32 @@ def _run(case, note, tmp):
         check(raised, "save_html() with an equal, newly built dependency did not raise for the missing file")
         check(snapshot_dir(target) == before, "save_html() touched the target directory before failing")
         later_fault = True
+    moved = False
+    if src_kind == "reldir" and listed:
+        # the same relative directory name in another project (other working directory, other file contents)
+        root2 = os.path.join(tmp, "project two")
+        src2 = os.path.join(root2, "assets", "w dir")
+        for comps, data in files:
+            p2 = os.path.join(src2, *comps)
+            os.makedirs(os.path.dirname(p2), exist_ok=True)
+            with open(p2, "wb") as f:
+                f.write(b"PROJECT TWO " + data)
+        os.chdir(root2)
+        dep2 = h.HTMLDependency(case["name"], case["version"], source=dict(source), script=[{"src": s} for s in scripts], stylesheet=[{"href": s} for s in sheets], all_files=all_files)
+        dest2 = os.path.join(tmp, "out two")
+        os.makedirs(dest2)
+        dep2.copy_to(dest2, include_version=iv)
+        t2 = os.path.join(dest2, case["name"] + ("-" + case["version"] if iv else ""))
+        for rel in listed:
+            with open(os.path.join(t2, *rel.split("/")), "rb") as f1, open(os.path.join(src2, *rel.split("/")), "rb") as f2:
+                check(f1.read() == f2.read(), "file copied for an equal dependency in another working directory is not that directory's file", rel)
+        check(os.path.realpath(dep2.source_path_map()["source"]) == os.path.realpath(src2), "source_path_map()['source'] of a relative directory does not follow the working directory")
+        moved = True
     need_enc = any(D.pct(r) != r for r in scripts + sheets)
     note(
         local and need_enc and (any("/" in r for r in scripts + sheets) or libdir != "lib" or not iv),
         "src:" + src_kind,
+        "same-relative-directory-in-two-projects" if moved else "",
         "all_files" if all_files else "",
         "pre:" + case["pre"] if local else "",
         "caller:" + case["caller"],
@@ -344,7 +383,7 @@ CLAUSES = [
         quick=600,
         thorough=5000,
         shards_quick=4,
-        required=("fault", "fault-after-success", "src:dir", "src:pkg", "src:url", "src:none", "src:libtest", "all_files", "pre:stale", "caller:tag", "caller:list", "caller:doc", "caller:html"),
+        required=("fault", "fault-after-success", "src:dir", "src:pkg", "src:url", "src:none", "src:libtest", "src:reldir", "same-relative-directory-in-two-projects", "all_files", "pre:stale", "caller:tag", "caller:list", "caller:doc", "caller:html"),
         rule="see RULE",
     ),
 ]
